@@ -18,6 +18,19 @@ NonDecreasing(s) == \A i \in 1..(Len(s) - 1) : s[i] <= s[i + 1]
 RECURSIVE Sum(_)
 Sum(s) == IF s = <<>> THEN 0 ELSE Head(s) + Sum(Tail(s))
 
+(* ---- binary layout (family 20, serial version 1, double flavour): 1 preamble long when empty or a single ----
+   ---- value, else 2 longs, min, max, then (mean f64, weight u64) per centroid; f64 values are passed as bytes ---- *)
+LE(x, n) == [i \in 1..n |-> (x \div (256 ^ (i - 1))) % 256]
+B(e) == [i \in 1..Len(e) |-> e[i]]
+RECURSIVE FlatCs(_, _, _)
+FlatCs(mb, ws, i) == IF i > Len(ws) THEN <<>> ELSE B(mb[i]) \o LE(ws[i], 4) \o <<0, 0, 0, 0>> \o FlatCs(mb, ws, i + 1)
+EncTD(e) ==
+  LET rev == IF e.rev THEN 4 ELSE 0 IN
+  IF e.tw = 0 THEN <<1, 1, 20>> \o LE(e.k, 2) \o <<1 + rev, 0, 0>>
+  ELSE IF e.tw = 1 THEN <<1, 1, 20>> \o LE(e.k, 2) \o <<2 + rev, 0, 0>> \o B(e.minb)
+  ELSE <<2, 1, 20>> \o LE(e.k, 2) \o <<rev, 0, 0>> \o LE(Len(e.ws), 4) \o <<0, 0, 0, 0>>
+       \o B(e.minb) \o B(e.maxb) \o FlatCs(e.mb, e.ws, 1)
+
 TInit == l = 1 /\ cnt = <<>>
 TrRun == IsEv("Run") /\ cnt' = <<>>
 
@@ -45,6 +58,7 @@ TrChk ==
           /\ NonDecreasing(Ev.means)                       \* means sorted
           /\ (n > 0 => /\ Ev.min <= Ev.means[1] /\ Ev.means[Len(Ev.means)] <= Ev.max   \* inside [min, max]
                        /\ Ev.min = Ev.smin /\ Ev.max = Ev.smax)                        \* exact extremes
+     /\ (On("C12") /\ "img" \in DOMAIN Ev) => B(Ev.img) = EncTD(Ev)
      /\ On("C15") => /\ Len(Ev.means) <= 2 * Ev.k + 30      \* bounded number of centroids
                      /\ Ev.len <= 32 + 16 * (2 * Ev.k + 30)
                      /\ (n > 1 => Ev.len = 32 + 16 * Len(Ev.means))
